@@ -2,6 +2,7 @@ package ipc
 
 import (
 	"fmt"
+	"go/constant"
 	"go/token"
 	"go/types"
 	"sort"
@@ -477,6 +478,13 @@ func runC12(c *Ctx) {
 						}
 						break
 					}
+					// the literal sits in a new constructor helper: the context it was handed
+					if prm, isP := x.(*ssa.Parameter); isP {
+						if a := helperParamArg(prm); a != nil {
+							bound = a
+							continue
+						}
+					}
 					ld, isLd := x.(*ssa.UnOp)
 					if !isLd || ld.Op != token.MUL {
 						break
@@ -522,6 +530,72 @@ func runC12(c *Ctx) {
 						ok = false
 					}
 				}
+			}
+			if !ok && ifi != nil {
+				// … or a deferred guard registered before the dial: `defer func() { if !handedOver
+				// { cancel() } }()` with the flag set only after the error path has left
+				blk := ifi.Block().Succs[succ]
+				noGo := true
+				for _, in := range blk.Instrs {
+					if _, isGo := in.(*ssa.Go); isGo {
+						noGo = false
+					}
+				}
+				EachInstrRaw(nc, func(i ssa.Instruction) {
+					df, isD := i.(*ssa.Defer)
+					if !isD || !noGo || !Dominates(df, d) {
+						return
+					}
+					mc, isMC := df.Call.Value.(*ssa.MakeClosure)
+					if !isMC {
+						return
+					}
+					lit := mc.Fn.(*ssa.Function)
+					var litCalls []ssa.Instruction
+					EachInstrRaw(lit, func(j ssa.Instruction) {
+						if CallOf(j) != nil {
+							litCalls = append(litCalls, j)
+						}
+					})
+					for _, call := range litCalls {
+						cc := CallOf(call)
+						if cc == nil || cc.IsInvoke() || !isCancel(cc.Value) {
+							continue
+						}
+						// every condition the cancel depends on is the negation of a local flag
+						// that no path to the error branch has set
+						guards := GuardConds(call)
+						fine := true
+						for _, g := range guards {
+							ld, isLd := g.Cond.(*ssa.UnOp)
+							if !isLd || ld.Op != token.MUL || g.Truth {
+								fine = false
+								continue
+							}
+							cell := resolveCell(ld.X)
+							if cell == nil || cell.Parent() != nc {
+								fine = false
+								continue
+							}
+							for _, r := range Refs(cell) {
+								st, isSt := r.(*ssa.Store)
+								if !isSt || st.Addr != ssa.Value(cell) {
+									continue
+								}
+								if cv, isC := st.Val.(*ssa.Const); isC && cv.Value != nil && cv.Value.Kind() == constant.Bool && !constant.BoolVal(cv.Value) {
+									continue // the initial false
+								}
+								first := blk.Instrs[0]
+								if h, _ := (&Walk{Target: func(j ssa.Instruction) bool { return j == first }, Local: true}).FromInstr(st); h != nil || st.Block() == blk {
+									fine = false
+								}
+							}
+						}
+						if fine {
+							ok = true
+						}
+					}
+				})
 			}
 			c.Check("C12.L", "dial-error:cancels", p, d.Pos(), ok, "a failed dial cancels the derived context and starts no goroutine", "the dial-error path does not cancel the derived context")
 		}
